@@ -141,6 +141,15 @@ func runC10(c Case, m *Model) (v Verdict) {
 func judgeFault(b []byte, cuts string, eofData bool, k int, m *Model, v *Verdict) {
 	fr := &cutReader{data: b, cuts: parseCuts(cuts), eofWithData: eofData, fault: k}
 	got := readClassFrom(readerVariant(fr, k+len(cuts)))
+	// the same fault reported with another error value (none of them io.EOF itself)
+	if ek := (k + len(b)) % len(faultErrors); ek != 0 {
+		fr2 := &cutReader{data: b, cuts: parseCuts(cuts), eofWithData: eofData, fault: k, faultErr: faultErrors[ek]}
+		got2 := readClassFrom(readerVariant(fr2, k+len(cuts)))
+		v.Counts["read-faults-other-error-values"]++
+		if fr2.hit && got2 != "error" {
+			v.Oracle = append(v.Oracle, fmt.Sprintf("the source failed with the non-EOF error %q but ReadFrom returned %s :: stream.read %s cuts=%s fault=%d", faultErrors[ek].Error(), short(got2), short(hx(b)), cuts, k))
+		}
+	}
 	v.Counts["read-faults"]++
 	v.Counts["reader:"+readerVariantNames[(k+len(cuts))%5]]++
 	ed := 0
